@@ -223,11 +223,13 @@ def c07(F, R, tier):
 
 
 @prop("C06",
-      technique="static: constructor tables per block kind and fold-shape rules on typed HIR, range-operator tables (parser and runtime), scope open/close pairing, adapter white-list, sibling agreement of name spelling, grammar separator",
-      explanation="PARTIAL. Decides (T-BLOCKS) for both BlockFunctionKind and BlockScopedFunctionKind each kind builds the documented form (min->Min, max->Max, all->And, any->Or, xor->left Xor fold with 0, sum->right Add fold with identity 0, prod->right Mul fold with identity 1, avg->sum divided by the count taken before the pop), folds iterate the remaining operands in reverse with the newest operand on the left (source order kept), kinds shared by the two enums agree; (T-RANGE) `..`->exclusive, `..=`->inclusive in the parser, and both integer branches of range() build Range/RangeInclusive accordingly from `from` to `to`; (D-SCOPE) in every function that opens scope frames, opens and Ok-path closes pair up (same iteration list) and iteration variables are declared after the frame is opened; (W-ORDER) no order-changing or filtering adapter between to_primitives() and the loops / folds / declaration expansion; (S-NAMES) the run-time and the static flattening of an indexed name spell every Primitive kind the same way, joined with `_`, which is the grammar's separator. NOT decided: equality of the compiled model with the hand-unrolled one; the set/graph builtin functions' element order.")
+      technique="static: constructor tables per block kind and fold-shape rules on typed HIR, range-operator tables (parser and runtime), scope open/close pairing, adapter white-list, sibling agreement of name spelling, grammar separator; bounded symbolic evaluation of the front end (typed HIR) on construct / hand-unrolled program pairs",
+      explanation="PARTIAL. Decides (T-BLOCKS) for both BlockFunctionKind and BlockScopedFunctionKind each kind builds the documented form (min->Min, max->Max, all->And, any->Or, xor->left Xor fold with 0, sum->right Add fold with identity 0, prod->right Mul fold with identity 1, avg->sum divided by the count taken before the pop), folds iterate the remaining operands in reverse with the newest operand on the left (source order kept), kinds shared by the two enums agree; (T-RANGE) `..`->exclusive, `..=`->inclusive in the parser, and both integer branches of range() build Range/RangeInclusive accordingly from `from` to `to`; (D-SCOPE) in every function that opens scope frames, opens and Ok-path closes pair up (same iteration list) and iteration variables are declared after the frame is opened; (W-ORDER) no order-changing or filtering adapter between to_primitives() and the loops / folds / declaration expansion; (S-NAMES) the run-time and the static flattening of an indexed name spell every Primitive kind the same way, joined with `_`, which is the grammar's separator. (EXPAND-EQUIV) a family of programs written with the constructs (31 written-out pairs plus template x data pairs: range ends incl. empty and single-element ranges, arrays, nested arrays, enumerate / zip / len, union / intersection / difference, five graphs with and without weights, neighbour sets, tuple destructuring, (1,23)/(12,3) index flattening, string indexes, sibling and dependent scopes, named constraints, quantified declarations, every aggregation block and scoped form incl. empty ones; quick ~170 pairs, thorough ~560) and the text unrolled by hand in iteration order both go through the emulated front end -- model of pest's matcher, converters, transform_parsed_problem, Linearizer::linearize, all evaluated from their typed HIR -- and must give the same linear model line for line (rows, order, names, coefficients, right-hand sides, variables, domains). NOT decided: programs outside the family; intersection / difference of a first operand with repeated elements (the text does not fix whether repeats survive).")
 def c06(F, R, tier):
     import c06 as mod
     mod.check(F, R, get_grammar())
+    import c06rt
+    c06rt.check(F, R, get_grammar(), tier)
 
 
 @prop("C16",
